@@ -32,6 +32,36 @@ extern "C" void harness() {
   VASSERT(order[0] == (swapIdx ? 1 : 0), "the legalization order keeps non-overlapping cells of a row left to right");
   __verif_cover("end");
 }
+#elif defined(H11C)
+// H11C: the whole Legalizer::run (ordering with the parameters as run() passes them, Tetris pass, Abacus pass) on two legal,
+// non-overlapping cells of one row, for every accepted parameter set: nothing moves.  (Float ordering keys: error model.)
+extern "C" void harness() {
+  int x1 = __verif_nondet_int(-VLIM, VLIM); int w1 = __verif_nondet_int(1, VLIM); int x2 = __verif_nondet_int(-VLIM, VLIM); int w2 = __verif_nondet_int(1, VLIM);
+  const int y = 0, h = 10;
+  __verif_assume(x1 + w1 <= x2 && x2 + w2 <= VLIM);
+  ColoquinteParameters p(1);
+  int pset = __verif_choice(PSETS);
+  if (pset == 1) p.legalization.orderingWidth = 0.0;
+  if (pset == 2) { float oy = __verif_nondet_float(-0.2f, 0.2f); p.legalization.orderingY = oy; }
+  if (pset == 3) p.legalization.orderingWidth = 1.0;
+  if (pset == 4) p.legalization.orderingWidth = 0.5;
+  if (pset == 5) { p.legalization.orderingWidth = 1.0; p.legalization.orderingY = -0.2; }
+  if (pset == 6) { p.legalization.orderingWidth = 0.0; p.legalization.orderingY = 0.2; }
+  bool rejected = false;
+  try { p.legalization.check(); } catch (const std::runtime_error&) { rejected = true; }
+  if (rejected) return;      // (the float -0.2f lies just outside the accepted range)
+  int swapIdx = __verif_choice(2);   // the left cell may have either index
+  std::vector<Row> rows; rows.push_back(Row(-VLIM, VLIM, y, y + h, CellOrientation::N));
+  std::vector<int> w = {swapIdx ? w2 : w1, swapIdx ? w1 : w2}, hh = {h, h}, x = {swapIdx ? x2 : x1, swapIdx ? x1 : x2}, yy = {y, y};
+  Legalizer leg(rows, w, hh, {CellRowPolarity::ANY, CellRowPolarity::ANY}, x, yy, {CellOrientation::N, CellOrientation::N});
+  bool threw = false;
+  try { leg.run(p); } catch (const std::runtime_error&) { threw = true; }
+  VASSERT(!threw, "legalizing a legal placement does not fail");
+  for (int i = 0; i < 2; ++i) {
+    VASSERT(leg.cellLegalX()[i] == x[i] && leg.cellLegalY()[i] == yy[i], "legalizing a legal placement moves nothing");
+  }
+  __verif_cover("end");
+}
 #else
 // H11B: Abacus on a legal placement, cells presented left to right within each row: nothing moves
 #ifndef NC
